@@ -133,6 +133,12 @@ class G:
                 # slice form f[i:i] is generated there
                 e.append("bit")
             return e
+        if r < 56:
+            # ~x as a value: the operand takes the width of the enclosing expression first.  Unsigned operands only
+            # (how a signed operand is extended depends on the signedness of the whole expression)
+            uns = [f for f in self.scalars if not f["signed"]]
+            if uns:
+                return ["not", ["f", d.choice(uns)["name"]]]
         op = d.choice(["+", "-", "&", "|", "^", "<<", ">>", "*", "/", "%"])
         l = self.val(depth - 1)
         if l[0] == "lit":          # a Python int cannot be the left operand of an operator with a field
@@ -140,8 +146,11 @@ class G:
         if op in ("*", "/", "%") and self.w(l) > self.mul_max_w:
             op = d.choice(["+", "-", "^"])
         if op in ("/", "%"):
-            # divisor: non-zero unsigned literal; dividend unsigned (pyvsc always divides unsigned)
+            # divisor: a non-zero literal (x / 0 has no value in SystemVerilog).  A signed dividend divided by a plain
+            # Python int is a signed division (towards zero; the remainder takes the dividend's sign)
             if self.sg(l):
+                if d.chance(60):
+                    return ["bin", op, l, ["lit", d.choice([-1, 1]) * d.randint(1, 7)]]
                 uns = [f for f in self.scalars if not f["signed"] and f["w"] <= self.mul_max_w]
                 l = ["f", d.choice(uns)["name"]] if uns else ["ulit", 5, 4]
             return ["bin", op, l, ["ulit", d.randint(1, 7), d.randint(3, 6)]]
